@@ -17,7 +17,7 @@ func init() {
 	run.Register(&run.Property{
 		ID:    "C02",
 		Title: "Relate returns the true DE-9IM matrix and the named predicates follow from it",
-		Rule: "cases = ordered operand pairs drawn (PRNG) from one lattice/GP domain: the six non-collection types in every combination incl. typed empties, plus collections whose members the oracle certifies pairwise disjoint; " +
+		Rule: "[added in rounds 9-11: payload-blind: the matrix is re-judged on copies carrying independent Z/M at every control point] cases = ordered operand pairs drawn (PRNG) from one lattice/GP domain: the six non-collection types in every combination incl. typed empties, plus collections whose members the oracle certifies pairwise disjoint; " +
 			"each case evaluates Relate both ways, the nine predicates and Intersects against the exact arrangement oracle. non-trivial = matrix is not the disjoint pattern FF*FF****; distinct by operand WKB",
 		Assumptions: []string{
 			"exact rational arrangement oracle (verif/exact) with definitional locate is the reference; its self-checks run in the same process",
